@@ -38,6 +38,7 @@ SIG_MUTEX = "batteries.ReplLockManager:mutex-broken"
 SIG_MUTEX_STALE = "batteries.ReplLockManager:stale-stamp-mutex"
 SIG_MUTEX_SNAPSHOT = "batteries.ReplLockManager:mutex-broken-after-snapshot"
 SIG_FAILED_KEPT = "batteries.ReplLockManager.tryAcquire:failed-acquire-kept"
+SIG_TWO_TOLD = "batteries.ReplLockManager.tryAcquire:two-clients-told-they-hold"
 NAMES = ["a", "b", "c"]
 
 
@@ -78,6 +79,7 @@ class Cluster(object):
         self.applied = dict((n, []) for n in NAMES)      # (abstract cmd, return value) in apply order
         self.answers = []
         self.rel_submitted = {}
+        self.sub_seq = dict((n, []) for n in NAMES)      # every client's own lock commands in submission order
         self.first_applied = {}              # command -> lock-clock value when the first node applied it
         self._bases = {}
         self.viols = []
@@ -157,6 +159,10 @@ class Cluster(object):
         me = NAMES.index(n) + 1
         try:
             cmd = pickle.loads(command)
+            if isinstance(cmd, tuple) and cmd[0] in self._bases[n]:
+                a0 = self._abstract(self._bases[n][cmd[0]], cmd[1])
+                if (a0[1] if a0[0] == "pro" else a0[2]) == me:      # forwarded commands of other clients are not ours
+                    self.sub_seq[n].append(a0)
             if isinstance(cmd, tuple) and cmd[0] in self._bases[n] and self._bases[n][cmd[0]] == "release":
                 a = self._abstract("release", cmd[1])
                 if a[2] == me:
@@ -308,6 +314,26 @@ class Cluster(object):
                 own_applied = sum(1 for (c, _) in self.applied[n] if c == ("rel", l, i + 1))
                 if own_applied >= self.rel_submitted.get((n, l), 0):
                     hs.append(n)
+            # two clients told they hold the lock (answer True, stamp less than U ago, acquire applied, no release of
+            # theirs applied after it)
+            cmds = [c for c, _ in common_sequence(self)]
+            entitled = []
+            for i, n in enumerate(NAMES):
+                for a in self.answers:
+                    if a["client"] == n and a["l"] == l and a.get("ans") is True and self.clock.now < a["att"] + self.U \
+                            and ("acq", l, i + 1, a["att"]) in cmds \
+                            and ("rel", l, i + 1) not in cmds[cmds.index(("acq", l, i + 1, a["att"])):]:
+                        entitled.append((n, a["att"], a["at"]))
+                        break
+            if len(entitled) > 1:
+                self.hit("told-true.2")
+                self.viols.append({"signature": SIG_TWO_TOLD,
+                                   "what": "cluster: at lock-clock %d two clients have been told they hold L%d (client, stamp of the tryAcquire, "
+                                           "time of the answer True): %s -- both stamps are less than U=%d ago, neither client's release was "
+                                           "applied; common sequence %s" % (self.clock.now, l, entitled, self.U, [lc.cmd_str(x) for x in cmds][-8:])})
+                return
+            elif entitled:
+                self.hit("told-true.1")
             for n in hs:
                 # told failed => not kept (D73): every tryAcquire of this client for l was answered with a failure,
                 # one of the acquires was committed more than U/2 after its attempt, and the client holds
@@ -318,8 +344,7 @@ class Cluster(object):
                             for a in att):
                     self.hit("held.by-client-told-failed")
                     cmds = [c for c, _ in common_sequence(self)]
-                    overtaken = any(("rel", l, i) in cmds[:cmds.index(("acq", l, i, a["att"]))] for a in att
-                                    if a["ans"] is None and ("acq", l, i, a["att"]) in cmds)
+                    overtaken = any(lc.release_overtaken(self.sub_seq[n], cmds, l, i, a["att"]) for a in att if a["ans"] is None)
                     self.viols.append({"signature": SIG_FAILED_KEPT + (":compensating-release-overtaken" if overtaken else ""),
                                        "what": "cluster: at lock-clock %d client %s considers L%d held (no release of its own outstanding) "
                                                "although every one of its tryAcquire calls was answered with a failure %s and the acquire "
